@@ -1,7 +1,7 @@
 (* C16 - back-to-back duplicate datagrams change nothing. Statements only.
    Model/Listener.v: AsyncListener's oversize guard, duplicate guard and TC deferral (tied to the real class by replaying logged
    datagram / timer labels). Vocabulary (after, outcome, fits, train, distinct_by_bytes ...): Proofs/C16_listener.v. *)
-From ZC Require Import Model.Base Model.Dict Model.Listener Proofs.C16_listener.
+From ZC Require Import Model.Base Model.Dict Model.Listener Proofs.C16_listener Proofs.C16_history.
 
 (* delivering a datagram without QU question twice in immediate succession - from any source address - is delivering it once:
    the second copy is dropped and the state is exactly the state after the first *)
@@ -61,6 +61,23 @@ Theorem C16_tc_query : forall a s es s' m now tc,
     /\ (forall now', tc_fire s'' a now' = None).
 Proof. exact tc_answered_once_query. Qed.
 
+(* the property at the level of whole histories: take ANY sequence of datagrams and TC-timer firings on one socket, none of the datagrams
+   carrying a QU question, and follow every datagram by any number of back-to-back copies (same bytes, same instant; any source address,
+   registry state and TC draw). The listener ends in the same state and hands exactly the same things, in the same order, to the record
+   manager and the query handler: the copies only ever produce ODuplicate (or OOversize). *)
+Theorem C16_history : forall es es' s,
+  Doubling es es' -> Forall no_qu es ->
+  fst (lev_run s es') = fst (lev_run s es)
+  /\ filter effective (snd (lev_run s es')) = filter effective (snd (lev_run s es)).
+Proof. exact doubling_changes_nothing. Qed.
+
+(* sharp: with a QU question the copy is handled again (open finding C16-qu-double-mcast) *)
+Theorem C16_history_qu_refuted : exists es es' s,
+  Doubling es es' /\ filter effective (snd (lev_run s es')) <> filter effective (snd (lev_run s es)).
+Proof. exact doubling_qu_counterexample. Qed.
+
+Print Assumptions C16_history.
+Print Assumptions C16_history_qu_refuted.
 Print Assumptions C16_idem.
 Print Assumptions C16_window.
 Print Assumptions C16_window_exact.
